@@ -611,8 +611,16 @@ func (v *FnV) contractCall(st *State, call *ast.CallExpr, fc *FuncContract, fn *
 		vars["self"] = *recv
 	}
 	n := sig.Params().Len()
+	// "params a b c" in the contract names unnamed parameters (interface methods) positionally
+	var pnames []string
+	for _, l := range fc.Extra["params"] {
+		pnames = append(pnames, strings.Fields(l)...)
+	}
 	for i := 0; i < n; i++ {
 		p := sig.Params().At(i)
+		if i < len(pnames) && i < len(args) {
+			vars[pnames[i]] = args[i]
+		}
 		if p.Name() == "" || p.Name() == "_" {
 			continue
 		}
@@ -687,7 +695,13 @@ func (v *FnV) contractCall(st *State, call *ast.CallExpr, fc *FuncContract, fn *
 		if _, ok := fc.Extra["functional"]; ok {
 			var all []Value
 			if recv != nil {
-				all = append(all, *recv)
+				rv := *recv
+				if sig.Recv() != nil && isInterface(sig.Recv().Type()) && !isInterface(rv.T) {
+					// a method of an interface called on a type parameter / concrete value:
+					// the functional symbol is declared over the interface type
+					rv = Value{T: sig.Recv().Type(), S: v.c.toIface(rv)}
+				}
+				all = append(all, rv)
 			}
 			all = append(all, args...)
 			st.assume(sEq(r.S, v.functionalApp(fc, i, t, all)))
